@@ -53,8 +53,6 @@ Lemma fold_count m c rows : fold_one m (FCount c) rows = SCount (Z.of_nat (lengt
 Proof. rewrite (fold_one_col m (FCount c) c) by reflexivity. cbn [agg_init]. now rewrite step_count. Qed.
 
 (** * SUM: the values the code adds are the Int64s; Bool, list and non-numeric strings are ignored *)
-Definition sum_dom (v : value) : bool :=
-  match v with VFloat _ => false | VStr s => negb (numeric_like s) | _ => true end.
 
 Lemma zsum_from l : forall a, fold_left Z.add l a = a + zsum l.
 Proof.
@@ -201,7 +199,6 @@ Proof.
 Qed.
 
 (** * grouping = folding each group's rows *)
-Definition keyeqb (gcols : list nat) (k : rowkey) (r : row) : bool := rowkey_eqb (group_key gcols r) k.
 
 Section Groups.
   Context {S : Type}.
@@ -439,3 +436,7 @@ Lemma min_string_typed_refuted_l : exists cs v,
 Proof.
   exists [mkChunk [[VStr [98]]; [VStr [97]]] None], (VStr [97]). repeat split; try reflexivity. discriminate.
 Qed.
+(** with the prepared repair of C11-K9 the result vector of SUM / MIN / MAX / COLLECT / FIRST / LAST
+    takes every value *)
+Lemma planner_type_fix_ok f v : match f with FCountStar | FCount _ | FAvg _ => True | _ => push_typed (planner_type_fix f) v = v end.
+Proof. destruct f; try exact I; cbn [planner_type_fix]; apply push_typed_any. Qed.
